@@ -422,10 +422,15 @@ def run(seed, sc, trace=None, tier='quick'):
             # application level node list for pre-placed tasks
             nodelist = None
             if any(t.get('preplaced') for t in sc['tasks']):
-                from radical.pilot.resource_config import Node, NodeList
-                nodes = [Node(copy.deepcopy(n)) for n in rm['node_list']]
-                nodelist = NodeList(nodes=nodes)
-                nodelist.verify()
+                # built the way the application gets it: the real
+                # `Pilot.nodelist` property on the resource details which
+                # the agent reports (here: a stand-in for the Pilot object)
+                class _P(object):
+                    _nodelist = None
+                    resource_details = {
+                        'node_list': copy.deepcopy(rm['node_list']),
+                        'numa_domain_map': None}
+                nodelist = rp.Pilot.nodelist.fget(_P())
             st['nodelist'] = nodelist
             st['app_slots'] = dict()
 
